@@ -4,22 +4,20 @@ import json, os
 V = os.path.dirname(os.path.dirname(os.path.abspath(__file__)))
 ALL = ['C%02d' % i for i in range(1, 21)]
 
-CLAIMED = {
- 'C11': dict(
-    category='model_checking',
-    text='TLC checks the write-path algorithm (deque of chunks, partial accept, transient refusal, deferred close) of spec/io/WriteBuf.tla '
-         'exhaustively against the C11 monitor (WriteBufOps) for every payload/outcome/close history in the bound; every environment history TLC '
-         'dumps is replayed on the real Server, Client and File endpoints with scripted send()/write() outcomes and the recorded traces, plus '
-         'seeded random longer ones, are judged by TLC with the same monitor (WriteBufTrace). Fault scripts are enumerated, not sampled, up to the bound.',
-    design_ref='DESIGN.md section 5, C11',
-    note='send()/os.write() are doubles (kernel not exercised); byte equality of payload slices is decided by the projection (offset lookup), '
-         'order/multiplicity/close position by TLC; bounds: quick 4 environment steps x 3 endpoints + 300 random scripts, thorough 6 steps x 4 errno variants x 2 scales + 6000 random.',
-    technique='TLA+ model (TLC exhaustive) + TLC-generated fault histories replayed on real endpoints + TLC trace validation'),
-}
+CLAIMED = {}   # filled from manifest.d/<id>.json
+
+DISABLED = set()   # property ids whose driver exists but is not yet registered
 
 PLANNED = 'not yet built in this round (planned: see DESIGN.md section 9); no check is registered, so nothing is claimed'
 
 def main():
+    d = os.path.join(V, 'manifest.d')
+    if os.path.isdir(d):
+        for f in sorted(os.listdir(d)):
+            if f.endswith('.json'):
+                pid = f[:-5]
+                if os.path.exists(os.path.join(V, 'harness', 'drivers', pid.lower() + '.py')) and pid not in DISABLED:
+                    CLAIMED[pid] = json.load(open(os.path.join(d, f)))
     checks = []
     for pid in ALL:
         if pid not in CLAIMED:
